@@ -62,6 +62,15 @@ static std::pair<float, Solution> findRoot(
 
         for (float step = r / slope; true; step /= 2)
         {
+            // A non-finite step stays non-finite when halved, and a zero step
+            // cannot get any smaller: no further progress is possible, so stop
+            // here instead of looping forever.
+            if (!std::isfinite(step) || step == 0)
+            {
+                converged = true;
+                break;
+            }
+
             for (auto& v : vars)
             {
                 e.setVar(v.first, v.second - step * ds.at(v.first));
